@@ -1,5 +1,6 @@
 import AaVerif.Flags
 import AaVerif.FlagsText
+import AaVerif.FlagsSet
 /-!
 # C05 — build mode and flags manifests, and nothing else, determine profile flags
 
@@ -166,6 +167,20 @@ theorem C05_rule_lines_untouched_enforce (t : List Char) :
 /-- the hypotheses are satisfiable by ordinary headers -/
 example : WF "profile foo @{exec_path} flags=(attach_disconnected,complain) {".toList := by decide +kernel
 example : WF "  profile bar {".toList := by decide +kernel
+
+/-! ## Flags manifests -/
+
+/-- **`setflags` on a block header**: for every well-formed header line `l` (followed by its newline) and every manifest entry
+`fl` (not empty, its flags free of `,` and `)`, one of them not empty), the task erases the clauses of the line and writes
+` flags=(fl)` in front of the brace: the header then carries exactly the manifest's flags, in the manifest's order, whatever
+it carried before; name, attachment and extended attributes (the rest of the line) stay. -/
+theorem C05_setflags_header (l : List Char) (hl : nl ∉ l) (h : WF l) (fl : List (List Char)) (hne : fl ≠ [])
+    (h1 : ∀ f ∈ fl, ',' ∉ f) (h2 : ∀ f ∈ fl, ')' ∉ f) (h3 : ∃ f ∈ fl, f ≠ []) :
+    setFlags fl (l ++ [nl]) = stem l ++ flagsClause fl ++ [nl] ∧ flagsOf (stem l ++ flagsClause fl) = fl :=
+  ⟨setFlags_header fl l (stem l) hl (stem_spec h.1), clause_flags (stem_clean h) hne h1 h2 h3⟩
+
+example : setFlags ["attach_disconnected".toList, "complain".toList] "profile foo @{exec_path} flags=(audit) {\n".toList
+    = "profile foo @{exec_path}  flags=(attach_disconnected,complain) {\n".toList := by decide +kernel
 
 /-! ## Every block of every text -/
 
